@@ -84,3 +84,18 @@ Proof. exact tie_as_slice. Qed.
 
 Theorem C06_source_into_iter : into_iter_init = [(FIndex, EInt 0); (FIndexBack, ELenN)].
 Proof. exact tie_into_iter. Qed.
+
+(* ---- T1: which trait methods are implemented (coq/gen/GenSigs.v gen_impl_methods) ---- *)
+From Coq Require Import String.
+From GA Require Import SigTie.
+From GAGen Require Import GenSigs.
+Local Open Scope string_scope.
+
+(* the Iterator / DoubleEndedIterator / ExactSizeIterator methods GenericArrayIter defines itself (regenerated, coq/gen/GenSigs.v): every other method -- advance_by, try_fold, position, .. -- is the standard library's default, built on these *)
+Theorem C06_source_iterator_methods :
+  methods_of "Iterator for GenericArrayIter<T,N>" = Some ["next"; "fold"; "size_hint"; "count"; "nth"; "last"] /\
+  methods_of "DoubleEndedIterator for GenericArrayIter<T,N>" = Some ["next_back"; "rfold"; "nth_back"] /\
+  methods_of "ExactSizeIterator for GenericArrayIter<T,N>" = Some ["len"] /\
+  methods_of "FusedIterator for GenericArrayIter<T,N>" = Some [].
+Proof. repeat split. Qed.
+
